@@ -70,7 +70,7 @@ class Runner:
                 w.set_bkg_method(w.mc_method)
                 (_, evl) = w.ana.generate_background_events(rss)
                 new = evl[0]
-                keep = list(w.exp_field_names()) + ['mcweight']
+                keep = list(w.exp_field_names()) + list(mcv.get('keep', ['mcweight']))
                 cache_uid = sf.ivals(w.mc['uid'][::2] if mcv['presel'] else w.mc['uid'])
                 pos = {u: i for i, u in enumerate(cache_uid)}
                 draw = [pos[u] for u in sf.ivals(new['uid'])]
@@ -78,6 +78,24 @@ class Runner:
                 sets = pf.cols_tok((f, new[f]) for f in pf.DOCUMENTED[mcv['scr']]) if mcv['scr'] else '-'
                 lines.append('genMC %s %s %s %s %s' % (idxs(keep), presel, sf.il(draw), sets, idxs(w.exp_field_names())))
                 self.cache_built = True
+            elif k == 'genComp':
+                mcv = w.spec['mc_variant']
+                keep = list(w.exp_field_names()) + list(mcv.get('keep', ['mcweight']))
+                # the per-trial MC copy is a local of the method: rebuild it with the same code and a twin random state
+                # (the scrambler is the first consumer of the random stream)
+                twin = w.mc.copy(keep_fields=keep)
+                if mcv['scr'] is not None:
+                    twin = w.DataScrambler(w.scr[mcv['scr']]()).scramble_data(w.RSS(seed=op.get('seed', 1)), w.ds, twin, copy=False)
+                w.set_bkg_method(w.comp_method)
+                (_, evl) = w.ana.generate_background_events(rss)
+                new = evl[0]
+                sets = pf.cols_tok((f, twin[f]) for f in pf.DOCUMENTED[mcv['scr']]) if mcv['scr'] else '-'
+                rates = pf.cols_tok((nm, fn(w.ds, w.data, twin)) for nm, fn in w.comp_rates.items())
+                cache_uid = sf.ivals(twin['uid'][::2] if mcv['presel'] else twin['uid'])
+                pos = {u: i for i, u in enumerate(cache_uid)}
+                draw = [pos[u] for u in sf.ivals(new['uid'])]
+                presel = ('i:' + sf.il(range(0, len(w.mc), 2))) if mcv['presel'] else 'N'
+                lines.append('genComp %s %s %s %s %s %s' % (idxs(keep), sets, rates, presel, sf.il(draw), idxs(w.exp_field_names())))
             elif k == 'genSig':
                 (_, _, evl) = w.ana.generate_signal_events(rss, mean_n_sig=op['k'], sig_kwargs={}, n_events_list=[0], events_list=[None])
                 new = evl[0]
@@ -123,7 +141,7 @@ class Runner:
                 lines.append('unblind ' + self.cfg_tokens(w.data.exp))
                 w.ana.unblind(rss)
             elif k == 'doTrial':        # oracle only (the intermediate containers are not observable)
-                w.set_bkg_method(w.mc_method if op.get('mc') else w.fixed[op['scr']])
+                w.set_bkg_method(w.comp_method if op.get('mc') == 'comp' else w.mc_method if op.get('mc') else w.fixed[op['scr']])
                 w.ana.do_trial(rss, mean_n_sig=op['k'])
                 lines = None
             else:
@@ -153,7 +171,7 @@ class Runner:
 def gen_history(rng, length, with_dotrial=False):
     ops, nh = [], 0
     while len(ops) < length:
-        ks = ['genFixed', 'genFixed', 'genMC', 'genMC', 'genSig', 'unblind', 'evaluate']
+        ks = ['genFixed', 'genFixed', 'genMC', 'genMC', 'genComp', 'genComp', 'genSig', 'unblind', 'evaluate']
         if nh:
             ks += ['sigMerge', 'sigMerge', 'initTrial', 'doTrialGiven', 'trialBkgSig', 'trialBkgSig']
         if with_dotrial:
@@ -163,7 +181,7 @@ def gen_history(rng, length, with_dotrial=False):
         if k == 'genFixed':
             op['scr'] = rng.choice(pf.SCRAMBLERS)
             nh += 1
-        elif k == 'genMC':
+        elif k in ('genMC', 'genComp'):
             nh += 1
         elif k == 'genSig':
             op['k'] = rng.choice([1, 2, 3])
@@ -177,7 +195,7 @@ def gen_history(rng, length, with_dotrial=False):
             op['e'] = rng.randrange(nh)
         elif k == 'doTrial':
             op['k'] = rng.choice([0, 2])
-            op['mc'] = rng.random() < 0.5
+            op['mc'] = rng.choice([False, True, 'comp'])
             op['scr'] = rng.choice(pf.SCRAMBLERS)
         ops.append(op)
     return ops
@@ -194,11 +212,14 @@ def frame_check(case):
             res = r.apply(op)
         except IndexError:
             return None       # malformed (shrunk) history: a handle that does not exist
-        scr = op.get('scr') if op['op'] == 'genFixed' else (case['spec']['mc_variant']['scr'] if op['op'] == 'genMC' else None)
+        scr = op.get('scr') if op['op'] == 'genFixed' else (case['spec']['mc_variant']['scr'] if op['op'] in ('genMC', 'genComp') else None)
         if scr is not None and res[0] == 'ok' and res[2] is not None:
             bad = ra_range_check(case['spec'], scr, res[2]['ra'])
             if bad:
                 return ('ra-range', op['op'], k, 'step %d (%s): %s' % (k, op['op'], bad))
+        bad = fieldset_check(r, op, res)
+        if bad:
+            return ('field-set', op['op'], k, 'step %d (%s): %s' % (k, op['op'], bad))
         for which, (a, sha0, cols0, id0) in enumerate(zip((r.w.data.exp, r.w.data.mc), r.sha0, r.cols0, r.ids0)):
             nm = 'data.exp' if which == 0 else 'data.mc'
             if id(a) != id0:
@@ -215,6 +236,46 @@ def frame_check(case):
                 return ('stored-data-changed', op['op'], k,
                         'step %d (%s, result %s): stored %s is altered: changed fields %r, added %r, removed %r%s, length %d' % (
                             k, op['op'], res[0], nm, changed, added, removed, ', field order changed' if order else '', len(a)))
+    return None
+
+
+def fieldset_check(r, op, res):
+    """every generated background / pseudo-data array carries every field of the experimental data; a background
+    sampled from MC carries exactly the experimental field set (+ the data fields the analysis asks for at
+    ANALYSIS_EXP stage when MC has them); no shared memory with the stored data"""
+    exp_fields = list(r.cols0[0])
+    want = set(exp_fields)
+    new = res[2]
+    if res[0] == 'ok' and new is not None:
+        got = list(new.field_name_list)
+        missing = [n for n in exp_fields if n not in got]
+        if missing:
+            return 'the generated events miss the experimental data field(s) %r (fields %r)' % (missing, got)
+        if op['op'] in ('genFixed', 'genMC', 'genComp'):
+            allowed = want | (set(r.w.exp_field_names()) & set(r.cols0[1]))
+            extra = [n for n in got if n not in allowed]
+            if extra:
+                return 'the generated background carries the non-experimental field(s) %r' % extra
+            for n in got:
+                if n not in new:
+                    return 'field %r is listed but not stored in the generated background' % n
+                if len(new[n]) != len(new):
+                    return 'field %r of the generated background has %d rows, the array %d' % (n, len(new[n]), len(new))
+    for i, h in enumerate(r.hs):
+        missing = [n for n in exp_fields if n not in h.field_name_list]
+        if missing:
+            return 'generated array #%d misses the experimental data field(s) %r after the operation' % (i, missing)
+        for stored, nm in ((r.w.data.exp, 'data.exp'), (r.w.data.mc, 'data.mc')):
+            if h is stored:
+                return 'generated array #%d is %s itself' % (i, nm)
+            for n in h.field_name_list:
+                if n in stored and h[n].size and np.shares_memory(h[n], stored[n]):
+                    return 'field %r of generated array #%d shares memory with %s' % (n, i, nm)
+    ev = r.w.tdm.events
+    if ev is not None:
+        missing = [n for n in exp_fields if n not in ev.field_name_list]
+        if missing:
+            return 'the trial data miss the experimental data field(s) %r' % missing
     return None
 
 
@@ -375,7 +436,7 @@ def corr_eval(lines, plan, answers):
                 return 'step %d: driver does not understand %r' % (k, ln)
             head = parse_head(last.split(' | ')[0])
             errs += head['errs']
-            if ln.startswith(('genFixed', 'genMC', 'genSig ')):
+            if ln.startswith(('genFixed', 'genMC', 'genComp', 'genSig ')):
                 new_id = head['h']
         mres = 'ok' if errs == 0 else 'err'
         if (res == 'ok') != (mres == 'ok'):
@@ -472,14 +533,14 @@ def shrink(case, mode):
     ops = list(case['ops'][:r[2] + 1])
     i = len(ops) - 2
     while i >= 0:
-        if ops[i]['op'] not in ('genFixed', 'genMC', 'genSig'):       # removing those shifts the handle numbers
+        if ops[i]['op'] not in ('genFixed', 'genMC', 'genComp', 'genSig'):       # removing those shifts the handle numbers
             cand = ops[:i] + ops[i + 1:]
             rr = frame_check({'spec': case['spec'], 'ops': cand})
             if rr is not None and rr[0] == mode:
                 ops = cand
         i -= 1
     # unreferenced generators at the end of the prefix
-    while len(ops) > 1 and ops[0]['op'] in ('genFixed', 'genMC', 'genSig') and not any(
+    while len(ops) > 1 and ops[0]['op'] in ('genFixed', 'genMC', 'genComp', 'genSig') and not any(
             o.get('b') is not None or o.get('e') is not None or o.get('s') is not None for o in ops[1:]):
         cand = ops[1:]
         rr = frame_check({'spec': case['spec'], 'ops': cand})
@@ -492,8 +553,9 @@ def shrink(case, mode):
 
 def run(ctx):
     rng = ctx.rng
-    ctx.rule = ('histories over {generate background with FixedScrambledExpData x 5 scrambling methods / MCDataSampling (with and '
-                'without scrambler and pre-selection), generate signal, merge signal into a generated background, initialise a trial on '
+    ctx.rule = ('histories over {generate background with FixedScrambledExpData x 5 scrambling methods / MCDataSampling and '
+                'CompositeMCDataSampling (with and without scrambler and pre-selection, keep_mc_data_fields none / partial / all MC-only / '
+                'overlapping experimental fields), generate signal, merge signal into a generated background, initialise a trial on '
                 'generated data, do_trial_with_given_(bkg_and_sig_)pseudo_data, evaluate, unblind, do_trial} on synthetic data sets with '
                 'extra user fields (int64 id, bool flag) and narrow dtypes (float32, int16), any seed, trial data managers with and without '
                 'index field / event selection / static data fields; distinct = distinct (data set spec, history)')
@@ -567,7 +629,7 @@ def run(ctx):
 
 
 MANIFEST = dict(
-    text=('Lean theorems on the heap model shared with C16: every pseudo-data operation (both background generation methods with any '
+    text=('Lean theorems on the heap model shared with C16: every pseudo-data operation (all three background generation methods, incl. the composite MC method, with any '
           'scrambling method, signal generation, merge by append, initialize_trial, unblind on a copy, evaluate) is the exact sequence of '
           'container operations of the code; none of them targets the stored containers (c07_compile_targets), hence for every history '
           'data.exp and data.mc read the same afterwards (c07_frame) and share no location with any generated container '
